@@ -228,21 +228,21 @@ def block_code(e, recv="c"):
     def faultsw(okret, ret):
         return ("switch fault(%d) { case 1: return %s errA; case 2: return %s errB; case 3: panic(\"boom\") }; return %s"
                 % (b["slot"], ret, ret, okret))
-    if k == "BRec": return "{ r := %s; trace(c, r); return r, nil }" % rec
+    if k == "BRec": return "{ zrec := %s; trace(c, zrec); return zrec, nil }" % rec
     if k == "BText": return "{ return string(c.text), nil }"
     if k == "BConst": return "{ return %s, nil }" % tag
     if k == "BLab": return "{ return %s, nil }" % b["args"][0]
-    if k == "BFault": return "{ r := %s; trace(c, r); %s }" % (rec, faultsw("r, nil", "r,"))
-    if k == "GInc": return "{ r := %s; trace(c, r); n, _ := c.globalStore[%s].(int); c.globalStore[%s] = n + 1; return r, nil }" % (rec, key, key)
-    if k == "AMut": return "{ r := %s; trace(c, r); c.state[%s] = 77; return r, nil }" % (rec, key)
+    if k == "BFault": return "{ zrec := %s; trace(c, zrec); %s }" % (rec, faultsw("zrec, nil", "zrec,"))
+    if k == "GInc": return "{ zrec := %s; trace(c, zrec); zn, _ := c.globalStore[%s].(int); c.globalStore[%s] = zn + 1; return zrec, nil }" % (rec, key, key)
+    if k == "AMut": return "{ zrec := %s; trace(c, zrec); c.state[%s] = 77; return zrec, nil }" % (rec, key)
     if k == "PConst": return "{ trace(c, %s); return %s, nil }" % (rec, "true" if b["val"] else "false")
-    if k == "PLab": return "{ trace(c, %s); b, _ := %s.([]byte); return len(b) > 0 && int(b[0]) == %d, nil }" % (rec, b["args"][0], b["val"])
-    if k == "PState": return "{ v := stInt(c, %s); trace(c, []any{%s, v}); return v%%2 == %d, nil }" % (key, tag, b["val"])
+    if k == "PLab": return "{ trace(c, %s); zb, _ := %s.([]byte); return len(zb) > 0 && int(zb[0]) == %d, nil }" % (rec, b["args"][0], b["val"])
+    if k == "PState": return "{ zv := stInt(c, %s); trace(c, []any{%s, zv}); return zv%%2 == %d, nil }" % (key, tag, b["val"])
     if k == "PMut": return "{ c.state[%s] = 99; return true, nil }" % key
     if k == "PFault": return "{ trace(c, %s); %s }" % (rec, faultsw("true, nil", "true,"))
     if k == "SSet": return "{ trace(c, []any{%s, stInt(c, %s)}); c.state[%s] = %d; return nil }" % (tag, key, key, b["val"])
-    if k == "SInc": return "{ v := stInt(c, %s); trace(c, []any{%s, v}); c.state[%s] = v + 1; return nil }" % (key, tag, key)
-    if k == "SBox": return "{ b := c.state[%s].(box); trace(c, []any{%s, *b.p}); *b.p++; return nil }" % (key, tag)
+    if k == "SInc": return "{ zv := stInt(c, %s); trace(c, []any{%s, zv}); c.state[%s] = zv + 1; return nil }" % (key, tag, key)
+    if k == "SBox": return "{ zb := c.state[%s].(box); trace(c, []any{%s, *zb.p}); *zb.p++; return nil }" % (key, tag)
     if k == "SFault": return "{ trace(c, %s); %s }" % (rec, faultsw("nil", ""))
     raise ValueError(k)
 
